@@ -17,6 +17,7 @@ pub mod tower;
 pub mod remote;
 pub mod e3;
 pub mod e3c;
+pub mod e3o;
 pub mod pure_c07f;
 pub mod pure_c17;
 pub mod pure_c18;
